@@ -334,10 +334,10 @@ def run(chk):
         chk.count('kind:' + case['kind'])
         if v:
             # liveness-type verdicts on real threads count only if they reproduce
-            if 'alive' in v:
+            if common.timing_verdict(v):
                 again = [run_case(case) for _ in range(2)]
-                if not all(x and 'alive' in x for x in again):
-                    chk.count('flaky-liveness-not-counted')
+                if not all(again):
+                    chk.count('timing-verdict-not-reproduced')
                     continue
             chk.violation('C14:%s:%s' % (case['kind'], v[:25]), v, case)
     chk.lean(['Dicom.Props.C14'])
